@@ -2,10 +2,12 @@ package main
 
 import (
 	"fmt"
+	"os"
 	"strings"
 
 	"verif/harness/core"
 	"verif/harness/gen"
+	"verif/harness/ref"
 )
 
 func init() {
@@ -112,6 +114,10 @@ func runC03(ctx *core.Ctx, idx int) *core.Result {
 	g := gen.NewG(r)
 	if idx%25 == 7 {
 		parenCopyCase(ctx, idx, res, g)
+		return res
+	}
+	if idx%25 == 13 {
+		operandCensus(ctx, idx, res, g)
 		return res
 	}
 	switch idx % 5 {
@@ -403,4 +409,111 @@ func parenCopyCase(ctx *core.Ctx, idx int, res *core.Result, g *gen.G) {
 		}
 	}
 	res.Sig("paren-copy", p[0], n)
+}
+
+// operandPositions are '+' sides that put the metavariable x into every kind of operand position of Go's expression and
+// type syntax. Whatever x stood for, the rewritten code has to be the position applied to that code as a unit.
+var operandPositions = []string{
+	"«x»(1)", "«x»()", "«x».f", "«x».m(1)", "«x»[0]", "«x»[1:]", "«x»[:2:3]", "«x».(T)", "«x»[int]", "«x»{}", "«x»{1, 2}",
+	"-«x»", "!«x»", "^«x»", "+«x»", "&«x»", "*«x»", "<-«x»",
+	"«x» * 2", "2 * «x»", "«x» / 2", "2 / «x»", "«x» % 2", "«x» + 2", "2 + «x»", "«x» - 2", "2 - «x»", "«x» << 1", "1 << «x»", "«x» &^ m", "m & «x»",
+	"«x» == 2", "2 != «x»", "«x» < 2", "«x» && ok", "ok && «x»", "«x» || ok", "ok || «x»", "«x» | m", "m ^ «x»",
+	"[]«x»{}", "[]«x»(nil)", "chan «x»", "<-chan «x»", "chan<- «x»", "map[«x»]int{}", "map[int]«x»{}", "[«x»]int{}", "wrapT(func(«x») int)", "wrapT(func(int) «x»)", "*«x»(nil)",
+	"T(«x»)", "wrap(«x»...)", "a[«x»]", "a[«x»:]", "a[:«x»]", "T{«x»: 1}", "T{k: «x»}", "a.(«x»)", "g[«x»]()", "g[int, «x»]()",
+	"«x» + «x»", "«x» - «x»", "-«x» * «x»", "«x».f.g(«x»)", "*«x».f", "&«x»[0]", "<-«x».c", "!«x»(1)",
+}
+
+// operandCensus: reference-free table of (operand position x kind of bound code). The expectation is the position with
+// the binding in explicit parentheses, as text; it is compared with the engine's output as a tree with parentheses
+// looked through, so the engine passes exactly when what it prints parses into the instantiated tree. Cells whose
+// expectation is no Go (a statement where a type must stand, ...) are not judged.
+func operandCensus(ctx *core.Ctx, idx int, res *core.Result, g *gen.G) {
+	r := g.R
+	// every position is visited in idx order, the fillers all at once
+	pos := operandPositions[(idx/25)%len(operandPositions)]
+	patch := "@@\nvar x expression\n@@\n-tgtPos(x)\n+" + strings.ReplaceAll(strings.ReplaceAll(pos, "«", ""), "»", "") + "\n"
+	host := []string{"\tuse(%s)\n", "\tv := %s\n\tuse(v)\n", "\tif cond(%s) {\n\t}\n", "\treturn %s\n"}[r.Intn(4)]
+	var srcs, wants []string
+	var kinds, fillers []string
+	for _, fl := range exprKindFillers {
+		in := "package p\n\nfunc f() {\n" + fmt.Sprintf(host, "tgtPos("+fl.text+")") + "}\n"
+		if !gen.Parses(in) {
+			continue
+		}
+		// the binding as a unit: in parentheses. Only the type of a composite literal may not be parenthesised: there a
+		// type stands as it is (anything else in that place is not judged)
+		isType := gen.Parses("package p\n\nvar _ " + fl.text + "\n")
+		typePos := false
+		for _, tp := range []string{"[]«x»", "chan «x»", "chan<- «x»", "map[«x»]", "map[int]«x»", "[«x»]int", "func(«x»)", "func(int) «x»", "*«x»(nil)", "a.(«x»)", "g[«x»]", "g[int, «x»]", "«x»{"} {
+			typePos = typePos || strings.Contains(pos, tp)
+		}
+		if strings.HasPrefix(pos, "«x»{") {
+			// only these stand unparenthesised in front of '{' as the literal's type
+			switch fl.kind {
+			case "Ident", "SelectorExpr", "IndexExpr", "IndexListExpr", "ArrayType", "StructType", "MapType":
+			default:
+				isType = false
+			}
+		}
+		if typePos && !isType {
+			res.Ob("operand-census:value-in-type-position", 1)
+			continue
+		}
+		want := ""
+		alts := []string{"(" + fl.text + ")"}
+		if strings.HasPrefix(pos, "«x»{") {
+			alts = []string{fl.text}
+		}
+		for _, w := range alts {
+			t := "package p\n\nfunc f() {\n" + fmt.Sprintf(host, strings.ReplaceAll(pos, "«x»", w)) + "}\n"
+			if gen.Parses(t) {
+				want = t
+				break
+			}
+		}
+		if want == "" {
+			res.Ob("operand-census:expectation-is-no-go", 1)
+			continue
+		}
+		srcs = append(srcs, in)
+		wants = append(wants, want)
+		kinds = append(kinds, fl.kind)
+		fillers = append(fillers, fl.text)
+	}
+	runs := applyAPI(patch, srcs)
+	dump := func(i int, what string) {
+		if p := os.Getenv("VERIF_CENSUS_DUMP"); p != "" {
+			if f, err := os.OpenFile(p, os.O_APPEND|os.O_CREATE|os.O_WRONLY, 0o644); err == nil {
+				fmt.Fprintf(f, "%-14s | %-22s | %s\n", pos, fillers[i], what)
+				f.Close()
+			}
+		}
+	}
+	for i, run := range runs {
+		res.Evals++
+		res.Ob("operand-census:cells", 1)
+		res.Sig("operand-census", pos, srcs[i])
+		rep := replayFiles(patch, srcs[i], run.Out)
+		rep["expected.go"] = wants[i]
+		if run.Pan != "" {
+			res.Violate("C03/engine-panic:"+core.PanicSignature(run.Pan), run.Pan, rep)
+			return
+		}
+		if run.Err != "" {
+			dump(i, "error: "+run.Err)
+			res.Violate("C03/engine-error/operand-census", fmt.Sprintf("position %q with x = %s: %s (the instantiated replacement %q is Go)", pos, kinds[i], run.Err, core.Trunc(wants[i], 200)), rep)
+			continue
+		}
+		got, _, _, e1 := ref.ParseFile([]byte(run.Out), true)
+		exp, _, _, e2 := ref.ParseFile([]byte(wants[i]), true)
+		if e1 != nil || e2 != nil {
+			res.Violate("C03/unparseable-output", fmt.Sprint(e1, e2), rep)
+			return
+		}
+		if !ref.Equal(got.Tree, exp.Tree) {
+			dump(i, "wrong: "+strings.Join(strings.Fields(strings.SplitN(run.Out, "{\n", 2)[1]), " "))
+			res.Violate("C03/wrong-rewrite/operand-census", fmt.Sprintf("position %q with x = %s: %s", pos, kinds[i], ref.FirstDiff(got.Tree, exp.Tree, "")), rep)
+			continue
+		}
+	}
 }
